@@ -50,7 +50,9 @@ PROPS = {
                 quick=9000, thorough=400000, quick_s=80, nontrivial=[],
                 nontrivial_any=["post_cross", "sim_libthreads", "sim_sigdel", "sim_reaps"], level="exploration"),
     "C15": dict(parts=[Z("C15", mode="enum")], quick=260, thorough=12000, nontrivial=["block"], level="fault_enumeration"),
+    "C17": dict(parts=[Z("C17", scen="pump")], quick=6000, thorough=300000, nontrivial=["pump_bytes"], level="exploration"),
     "C18": dict(parts=[Z("C18", w=4), Z("C13", scen="pool"), Z("C10", scen="sig"), Z("C11", scen="wait"), Z("C19", scen="popen")], quick=24000, thorough=1200000, nontrivial=["cycles"], level="exploration"),
+    "C20": dict(parts=[Z("C20", scen="inot")], quick=16000, thorough=800000, nontrivial=["inot_cb"], level="exploration"),
 }
 
 ASSUMPTIONS = [
